@@ -7,3 +7,114 @@ try:
     REPLAYERS.update(getattr(_ring, "REPLAYERS", {}))
 except ImportError:
     _ring = None
+
+import itertools
+import numpy, z3
+from pyvc import sym, oarr, loopcut
+from pyvc.sym import cur, _t
+from pyvc.oarr import OArr
+
+H5 = "pybrops/core/util/h5py.py"
+ABSENT = "<absent>"
+
+
+class FileProxy:
+    """abstract HDF5 file: a finite map path -> stored value.  For every path that the run touches the
+    pre-state (present with an arbitrary old value / absent) is a non-deterministic choice (forked)."""
+
+    def __init__(self):
+        self.map = {}
+        self.pre = {}
+        self.log = []
+
+    def _touch(self, path):
+        if path not in self.map:
+            present = cur().fork("pre:" + path)
+            v = ("old", path) if present else ABSENT
+            self.map[path] = v
+            self.pre[path] = v
+
+    def __contains__(self, path):
+        self._touch(path)
+        # a group exists iff something is stored below it
+        return self.map[path] is not ABSENT
+
+    def __delitem__(self, path):
+        self._touch(path)
+        if self.map[path] is ABSENT:
+            raise KeyError("Couldn't delete link (name doesn't exist)")
+        self.map[path] = ABSENT
+        for q in list(self.map):                  # deleting a group deletes everything below it
+            if q.startswith(path + "/"):
+                self.map[q] = ABSENT
+        self.log.append(("del", path))
+
+    def create_dataset(self, path, data=None, **kw):
+        self._touch(path)
+        if self.map[path] is not ABSENT:
+            raise ValueError("Unable to create dataset (name already exists)")
+        self.map[path] = data
+        self.log.append(("create", path))
+
+
+def _dict_shapes(tier):
+    kinds = ["arr", "none", "nested"]
+    out = []
+    for nkeys in (1, 2, 3):
+        for combo in itertools.product(kinds, repeat=nkeys):
+            if nkeys == 3 and tier == "quick" and combo.count("nested") > 1:
+                continue
+            out.append(combo)
+    return out
+
+
+@unit(P, "A1[h5py_File_write_dict: last write wins, nothing stale, other paths untouched]", "A1", bounded=True,
+      targets=[H5 + ":h5py_File_write_dict"],
+      note="bounded(keys): dictionaries of <= 3 keys, values in {array, None, one-level nested dict}, every pre-state of the "
+           "touched paths (present/absent); array contents, group name and old contents are arbitrary")
+def u_write_dict(ctx):
+    import importlib
+    mod = importlib.import_module("pybrops.core.util.h5py")
+    ctx.trust("h5py.File modelled as a finite map path -> value with `in`, `del` (also removes everything below a group) and "
+              "create_dataset (raises if the name exists); reading returns the stored value")
+    f = loopcut.Extracted(H5 + ":h5py_File_write_dict", overrides={
+        "check_is_h5py_File": lambda *a: None, "check_h5py_File_is_writable": lambda *a: None})
+    f.globals["h5py_File_write_dict"] = f.fn          # the recursive call runs the same extracted code
+    ex = ctx.explorer(max_paths=100000)
+    for shape in _dict_shapes(ctx.tier):
+        tag = "write_dict{%s}" % ",".join(shape)
+
+        def thunk(shape=shape, tag=tag):
+            e = cur()
+            fp = FileProxy()
+            d = {}
+            expect = {}
+            g = "grp/"
+            for i, kind in enumerate(shape):
+                key = "k%d" % i
+                if kind == "arr":
+                    d[key] = OArr.fresh("v%d" % i, (sym.fresh_int("n%d" % i, 0),), "float64")
+                    expect[g + key] = d[key]
+                elif kind == "none":
+                    d[key] = None
+                    expect[g + key] = ABSENT
+                else:
+                    inner = OArr.fresh("w%d" % i, (sym.fresh_int("m%d" % i, 0),), "int64")
+                    d[key] = {"a": inner, "b": None}
+                    expect[g + key + "/a"] = inner
+                    expect[g + key + "/b"] = ABSENT
+            fp._touch("grp/other")                   # a path outside the dictionary
+            f(fp, g, d, True)
+            for path, want in expect.items():
+                fp._touch(path)
+                got = fp.map[path]
+                e.prove("%s:view[%s]==last-written" % (tag, path.replace("grp/", "")),
+                        (got is want) if not isinstance(want, OArr) else (isinstance(got, OArr) and got._term.eq(want._term)))
+            e.prove(tag + ":other-paths-untouched", fp.map["grp/other"] is fp.pre["grp/other"])
+            return "ok"
+        outs = ex.explore(thunk)
+        raised = [o for o in outs if isinstance(o, sym.Raised)]
+        ex.obligations.append(dict(name=tag + ":noraise", unit=ex.unit, kind="noraise", path=0,
+                                   status="proved" if not raised else "refuted", solver="native", seconds=0.0, expect="proved",
+                                   detail="; ".join(repr(r) for r in raised[:2]) + ("\n" + raised[0].tb[-700:] if raised else "")))
+    ctx.absorb(ex)
